@@ -185,6 +185,17 @@ theorem direct_beam_weighted_sum_one (M : n → ℝ) (hM : ∀ i, M i ≠ 0) (A 
   · intro b _ hb; simp [hb]
   · intro hi; exact absurd (Finset.mem_univ i0) hi
 
+/-- **Deviation from the property statement ("intensities sum to one") for M ≠ 1**: flux conservation does not give a unit
+plain sum — a state with flux-weighted sum one whose plain intensity sum is `m² ≠ 1`. This documents the recorded finding
+`plain-intensity-sum-differs-from-one-with-holz-or-tilt`: with reflections of `g_z ≠ 0` the code (and the Bloch-wave
+formalism it implements) conserves `Σ|ψ_g|²(1+g_z/k₀)`, not `Σ|ψ_g|²`. -/
+theorem plain_sum_not_conserved_counterexample :
+    ∃ (M : Fin 2 → ℝ) (x : Fin 2 → ℂ), (∀ i, M i ≠ 0) ∧ wsum M x = 1 ∧ sqn x ≠ 1 := by
+  refine ⟨![1, 2], ![0, 2], ?_, ?_, ?_⟩
+  · intro i; fin_cases i <;> simp
+  · simp [wsum, Fin.sum_univ_two]
+  · simp [sqn, Fin.sum_univ_two]; norm_num
+
 /-- the plain intensity sum then lies between the extreme values of `M²` -/
 theorem intensity_sum_bounds (M : n → ℝ) (x : n → ℂ) (lo hi : ℝ) (hw : wsum M x = 1)
     (hM : ∀ i, M i ≠ 0) (hlo : ∀ g, lo ≤ (M g) ^ 2) (hhi : ∀ g, (M g) ^ 2 ≤ hi) :
